@@ -299,6 +299,8 @@ enum PathStep {
 /// Splits a path of name and index segments into the steps that lead to the element.
 /// A name step only descends into an object and an index step only into an array.
 fn path_steps(path: &str) -> Option<Vec<PathStep>> {
+    #[cfg(jsonpath_rust_verif)]
+    crate::verif::point(crate::verif::REFERENCE);
     let JpQuery { segments } = parse_json_path(path).ok()?;
     segments
         .into_iter()
